@@ -71,7 +71,7 @@ def run_os(prop, tier, seed, runs, builds, own_guards, crash_decisive=True, grou
             if (sig, tpath) in seen:
                 continue
             seen.add((sig, tpath))
-            if name in own_guards or (crash_decisive and name == "NoCrash"):
+            if name in own_guards or name == "TraceIntact" or (crash_decisive and name == "NoCrash"):
                 keep = os.path.join(vlib.keepdir(prop), os.path.basename(tpath))
                 shutil.copyfile(tpath, keep)
                 V.violation(sig, "%s:%d" % (keep, lline), "guard %s failed (%s)" % (name, detail))
